@@ -15,15 +15,17 @@ def load_spec(name):
 
 
 class Ctx(object):
-    def __init__(self, target='le', workdir=None, defs=(), suffix=''):
+    def __init__(self, target='le', workdir=None, defs=(), suffix='', opt='-O0', extra=()):
         self.target = target
         self.defs = tuple(defs)
         self.suffix = suffix
+        self.opt = opt
+        self.extra = tuple(extra)
         self.workdir = workdir or build.scratch()
         self.spec = load_spec('formats.json')
         self.formats = {f['format']: f for f in self.spec['formats']}
         try:
-            path, units = build.build_library_ir(target, workdir=self.workdir, defs=self.defs, suffix=suffix)
+            path, units = build.build_library_ir(target, workdir=self.workdir, defs=self.defs, suffix=suffix, opt=opt, extra=extra)
         except build.BuildError as e:
             raise Broken(str(e))
         self.units = units
@@ -155,9 +157,24 @@ def run_all_configs(run, tier, res, target='le', ilp32='always'):
     for tag, v in vs:
         out = run(v, tier, res, tag=tag)
     if ilp32 == 'always' or (ilp32 == 'thorough' and tier == 'thorough'):
-        c32 = Ctx('le32')
+        # the second configuration differs from the first in everything a user's build may differ in: ILP32 target,
+        # the front end in optimising mode (-O1 with the LLVM passes disabled: __OPTIMIZE__ is defined, object
+        # lifetimes are marked, __builtin_constant_p survives as llvm.is.constant) and GCC's version macros
+        # (clang reports __GNUC__ == 4 by default; code under `#if __GNUC__ >= 5` is GCC-only otherwise) and plain `char`
+        # unsigned as on ARM, PowerPC, RISC-V (x86: signed)
+        try:
+            c32 = Ctx('le32', opt='-Os', extra=GCC_LIKE + NOT_CLANG, suffix='_gcclike')
+        except Broken:
+            # code for "GCC but not clang" that clang cannot compile (GCC-only builtins): keep clang's own identity
+            c32 = Ctx('le32', opt='-Os', extra=GCC_LIKE, suffix='_gcclike2')
         if c32.mod.ptr_bytes != 4 or c32.mod.big_endian:
             raise Broken('target le32 is not a little-endian 32-bit target')
-        res.extra['build configurations analysed'].append('i386 (little-endian, ILP32)')
+        res.extra['build configurations analysed'].append('i386 (little-endian, ILP32), front end in -Os mode (passes disabled) with lifetime markers, '
+                                                          '__GNUC__ = 12 and no __clang__, plain char unsigned')
         out = run(c32, tier, res, tag=' [i386]')
     return out
+
+
+GCC_LIKE = ('-fgnuc-version=12.2.0', '-funsigned-char')
+# `#if defined(__GNUC__) && !defined(__clang__)` selects code for real GCC: compile that branch too where clang can
+NOT_CLANG = ('-U__clang__', '-U__clang_major__', '-U__clang_minor__', '-U__clang_patchlevel__', '-U__clang_version__')
